@@ -66,7 +66,7 @@ theorem C05_arm (ext : Ext F) (s : Scalar) (a : Action) (v : GoVal F)
       simp [applyAction, convTo, checkOut, GoVal.kind, Scalar.outKind, wrapInt, wrap64_id n h1 h2, intValue, inRange64, h1, h2]
   | fmtInt =>
     cases v with
-    | int k n => cases s <;> cases k <;> coerce_fin
+    | int k n => cases s <;> cases k <;> (first | (coerce_fin; done) | (coerce_fin; rw [wrap64_id n (by omega) (by omega)]))
     | flt k x => cases s <;> cases k <;> coerce_fin
     | _ => cases s <;> coerce_fin
   | boolStr =>
@@ -86,7 +86,7 @@ theorem C05_arm (ext : Ext F) (s : Scalar) (a : Action) (v : GoVal F)
     | _ => cases s <;> coerce_fin
   | fmtFloat bits =>
     cases v with
-    | int k n => cases s <;> cases k <;> coerce_fin
+    | int k n => cases k <;> simp_all [armSoundOut, GoVal.kind, Kind.isFloat, GoVal.wf, kindRange]
     | flt k x => cases s <;> cases k <;> coerce_fin
     | _ => cases s <;> coerce_fin
   | convCheckedKeep t => simp [armSoundOut] at hs
@@ -97,6 +97,14 @@ theorem C05_arm (ext : Ext F) (s : Scalar) (a : Action) (v : GoVal F)
   | timeOfInt => simp [armSoundOut] at hs
   | timeParseKeep => simp [armSoundOut] at hs
   | convStrict t => simp [armSoundOut] at hs
+  | parseInt32Keep => simp [armSoundOut] at hs
+  | fmtUint =>
+    cases v with
+    | int k n =>
+      simp only [armSoundOut, GoVal.kind, Bool.and_eq_true, Bool.or_eq_true, beq_iff_eq] at hs
+      rcases hs.2 with rfl | rfl <;> simp [applyAction, checkOut, GoVal.kind, Scalar.outKind]
+    | flt k x => cases k <;> simp_all [armSoundOut, GoVal.kind, Kind.isInt, GoVal.wf, kindRange, Kind.isFloat]
+    | _ => simp_all [armSoundOut, GoVal.kind, Kind.isInt, kindRange]
 
 
 theorem armFor_mem (tbl : Table) (k : Kind) :
